@@ -68,7 +68,8 @@ REPORT_WX = {
     "wweek":  ("2020-03-05", 7, TZ),        # contains the spring-forward day
     "wday":   ("2020-08-14", 1, TZ),
     "weast":  ("2020-01-01", 366, TZ_OTHER),
-    "wgap":   ("2020-04-01", 61, TZ),       # weather feed with short gaps (hourly: 3 hours every 36; daily: every 11th day)
+    "wgap":   ("2020-04-01", 61, TZ),
+    "wdup":   ("2020-05-01", 45, TZ),       # some timestamps occur twice, the two rows carrying different temperatures; the first one has no usage       # weather feed with short gaps (hourly: 3 hours every 36; daily: every 11th day)
 }
 
 
@@ -79,6 +80,30 @@ def weather_gaps(name, T, hourly):
     pos = np.arange(len(T))
     T[((pos % 36) < 3) & (pos > 40) if hourly else (pos % 11 == 5)] = np.nan
     return T
+
+
+def dup_rows(name, idx, cols, hourly):
+    """weather `wdup`: every 9th row (hourly: every 50th) is followed by a second row with the SAME timestamp, another temperature and
+    the usage reading; the first of the two rows has no usage.  The data classes keep the first row of a duplicated timestamp
+    (CalTRACK 2.3.2.2), so the temperature used for that timestamp is the first row's whatever the usage column holds."""
+    if name != "wdup":
+        return idx, cols
+    n = len(idx)
+    at = np.arange(n)[(np.arange(n) % (50 if hourly else 9)) == 4]
+    order = np.sort(np.concatenate([np.arange(n), at]), kind="stable")
+    second = np.zeros(len(order), bool)
+    second[1:] = order[1:] == order[:-1]
+    first = np.zeros(len(order), bool)
+    first[:-1] = second[1:]
+    out = {}
+    for k, v in cols.items():
+        w = np.array(v, dtype=float)[order]
+        if k == "temperature":
+            w[second] = w[second] + 7.0
+        elif k == "observed":
+            w[first] = np.nan
+        out[k] = w
+    return idx[order], out
 
 
 def partnan_mask(n):
@@ -147,6 +172,8 @@ def build(fam, kind, name, obs_variant="orig", ghi=False, supp=False):
         cols = {"temperature": T}
         if obs is not None:
             cols["observed"] = obs
+        if kind != "baseline":
+            idx, cols = dup_rows(name, idx, cols, False)
         return pd.DataFrame(cols, index=idx), {"is_electricity_data": True}
     if fam in ("hourly", "caltrack"):
         if kind == "baseline":
@@ -183,5 +210,7 @@ def build(fam, kind, name, obs_variant="orig", ghi=False, supp=False):
             cols["sup_b"] = (dw >= 5).astype(float) * 0.5
         if obs is not None:
             cols["observed"] = obs
+        if kind != "baseline":
+            idx, cols = dup_rows(name, idx, cols, True)
         return pd.DataFrame(cols, index=idx), {"is_electricity_data": True}
     raise ValueError(fam)
